@@ -441,10 +441,9 @@ def _run_chunk(args):
             if nm not in CHECKS:
                 continue
             try:
-                with guard.time_limit(guard.CASE_SECONDS):
-                    f, n = CHECKS[nm](T, v, M, opts)
+                f, n = guard.run_case(lambda: CHECKS[nm](T, v, M, opts), seconds=600)   # one case = every schedule of one encoding
             except guard.CaseTimeout:
-                f, n = [fail(nm, T, v, 'does not terminate within %d s on this case' % guard.CASE_SECONDS)], 1
+                f, n = [fail(nm, T, v, 'does not terminate within %d s on this case' % 3000)], 1
             except Exception as ex:
                 f, n = [fail(nm, T, v, 'harness error %s: %s' % (type(ex).__name__, ex),
                              trace=traceback.format_exc()[-800:], harness_error=True)], 1
